@@ -368,8 +368,13 @@ def graph_cases(n, slots, tier):
     targets = [''] + names
     import itertools
     per_module = list(itertools.product(targets, repeat=slots))
-    exports = [None, 0, n - 1, 'none'] if (tier == 'thorough' or n <= 2) else ([None, 0] if n == 3 else [None])
-    touches = ['early', 'init', 'never']
+    if n <= 2 or (tier == 'thorough' and n == 3):
+        exports = [None, 0, n - 1, 'none']
+    elif n == 3 or (tier == 'thorough' and slots == 1):
+        exports = [None, 0]
+    else:
+        exports = [None]
+    touches = ['early', 'init', 'never'] if not (n == 4 and slots == 2) else ['init', 'never']
     for combo in itertools.product(per_module, repeat=n):
         for touch in touches:
             if touch == 'never' and any(any(c) for c in combo) and combo != per_module_first_nonempty(per_module, n):
